@@ -165,6 +165,26 @@ func (c *Ctx) randPoly(t int) poly {
 	for i := range p {
 		p[i] = c.randScalar()
 	}
+	// one polynomial in four has a relation between two adjacent coefficients: a_{k-1} = v a_k or -v a_k for an evaluation
+	// point v = 1..8 (the Horner evaluation of the public key share at v then adds two EQUAL points, or two opposite ones),
+	// or a zero coefficient (a point at infinity inside the vector)
+	if t >= 1 && c.intn(4) == 0 {
+		k := 1 + c.intn(t)
+		v := big.NewInt(int64(1 + c.intn(8)))
+		switch c.intn(3) {
+		case 0:
+			p[k-1] = new(big.Int).Mod(new(big.Int).Mul(v, p[k]), blsR)
+		case 1:
+			p[k-1] = new(big.Int).Mod(new(big.Int).Neg(new(big.Int).Mul(v, p[k])), blsR)
+		case 2:
+			if k < t {
+				p[k] = big.NewInt(0)
+			}
+		}
+		if p[0].Sign() == 0 {
+			p[0] = big.NewInt(1)
+		}
+	}
 	return p
 }
 func (p poly) eval(x int) *big.Int {
